@@ -14,6 +14,7 @@ import JxlModel.Driver.C05
 import JxlModel.Driver.C12
 import JxlModel.Driver.C08
 import JxlModel.Driver.C09
+import JxlModel.Driver.C07
 
 def main (args : List String) : IO UInt32 := do
   match args with
@@ -39,4 +40,5 @@ def main (args : List String) : IO UInt32 := do
   | ["c20"] => Jxl.Driver.C08.main; return 0
   | ["c09"] => Jxl.Driver.C09.main; return 0
   | ["c11"] => Jxl.Driver.C09.mainC11; return 0
+  | ["c07"] => Jxl.Driver.C07.main; return 0
   | _ => IO.eprintln "usage: jxlmodel <component>"; return 2
